@@ -117,13 +117,14 @@ pub fn generate(g: &mut Gen) {
         for _ in 0..n {
             ops.push(match g.rng.below(10) {
                 0 | 1 | 2 => {
-                    // exp: mostly |x| <= 50, sometimes up to 1e3, rarely 1e4..1e6 (huge results), negative half the time
+                    // exp: mostly |x| <= 60, sometimes up to 1e3, thorough tier: rarely 1e3..1e5 (results of up to 43 000 digits;
+                    // beyond that printing the result takes minutes in the model, so 1e5..1e6 is not sampled for exp)
                     let x = match g.rng.below(12) {
                         0 => BigInt::zero(),
                         1 => BigInt::from(g.rng.range(1, 3)),
                         2 => &p * BigInt::from(g.rng.range(1, 50)),
                         3 => { let m = g.rng.range(0, 2) as i32 + 1; magnitude(g, m) }
-                        4 => if g.thorough() && g.rng.chance(1, 20) { let m = g.rng.range(3, 5) as i32; magnitude(g, m) } else { magnitude(g, 0) },
+                        4 => if g.thorough() && g.rng.chance(1, 40) { let m = g.rng.range(3, 4) as i32; magnitude(g, m) } else { magnitude(g, 0) },
                         5 => &p + BigInt::from(g.rng.below(3)) - 1,
                         _ => { let x = gen_pos(g); if x > &p * BigInt::from(60) { x % (&p * BigInt::from(60)) } else { x } }
                     };
